@@ -30,7 +30,7 @@ class Dispatcher:
         self.types = types
         self.hooks = hooks
         self.registry = dict(hooks.union_registry_items())
-        self.class_hooks = hooks.class_hooks()
+        self.class_hooks = hooks.class_hooks_effective()
         self._pred_cache: dict = {}
 
     def handler(self, ty):
@@ -356,6 +356,9 @@ class Leaf:
 BOTH = object()
 
 
+_TYPEPARAM = ("<the type the hook is called for>",)
+
+
 class HookEval:
     """Evaluates one hook (FunctionDef / Lambda / synthetic decision list) on one alternative."""
 
@@ -384,6 +387,7 @@ class HookEval:
         self._inline_depth = 0
         # names bound to folded VALUES (strings, type objects, tables) by helper inlining / loop unrolling
         self.valenv: list[dict] = []
+        self.localvals: dict = {}      # locals of the hook bound to folded values
         self._synth: dict = {}
 
     @property
@@ -398,6 +402,8 @@ class HookEval:
         for frame in reversed(self.valenv):
             if name in frame:
                 return frame[name]
+        if name in self.localvals:
+            return self.localvals[name]
         c = self.closure
         if c is None:
             return self._NOVALUE
@@ -421,6 +427,7 @@ class HookEval:
             return self._NOVALUE
         from .microeval import Raised
         env = {"__parent__": c.env}
+        env.update(self.localvals)
         for frame in self.valenv:
             env.update(frame)
         try:
@@ -431,7 +438,7 @@ class HookEval:
     def helper_fn(self, name: str):
         """A helper function visible from the hook: FunctionDef or None."""
         v = self.free_value(name)
-        if v is not self._NOVALUE and hasattr(v, "node") and isinstance(v.node, ast.FunctionDef):
+        if v is not self._NOVALUE and hasattr(v, "node") and isinstance(v.node, (ast.FunctionDef, ast.Lambda)):
             return v.node
         for fns in self.hooks.local_fns.values():
             if name in fns:
@@ -469,16 +476,26 @@ class HookEval:
             base = self.path_of(node.value, extra)
             if base is None:
                 return None
-            sl = node.slice
-            if isinstance(sl, ast.Constant) and isinstance(sl.value, (int, str)) and not isinstance(sl.value, bool):
-                return base + (sl.value,)
+            sl = self._const_key(node.slice, extra)
+            if sl is not None:
+                return base + (sl,)
             return None
         if isinstance(node, ast.Call) and isinstance(node.func, ast.Attribute) and node.func.attr == "get" \
-                and len(node.args) >= 1 and isinstance(node.args[0], ast.Constant):
+                and len(node.args) >= 1 and self._const_key(node.args[0], extra) is not None:
             base = self.path_of(node.func.value, extra)
             if base is None:
                 return None
-            return base + (("get", node.args[0].value),)
+            return base + (("get", self._const_key(node.args[0], extra)),)
+        return None
+
+    def _const_key(self, sl, extra):
+        """A subscript / .get() key: a constant, or a name bound to a folded string / int (loop unrolling)."""
+        if isinstance(sl, ast.Constant) and isinstance(sl.value, (int, str)) and not isinstance(sl.value, bool):
+            return sl.value
+        if isinstance(sl, ast.Name) and sl.id != self.param and sl.id not in (extra or {}) and sl.id not in self.locals:
+            v = self.free_value(sl.id)
+            if isinstance(v, (int, str)) and not isinstance(v, bool):
+                return v
         return None
 
     def value_at(self, w: World, path):
@@ -595,12 +612,22 @@ class HookEval:
                 if v[0] == "error":
                     return v
                 ks = self.sh.kinds(v)
+                nkey = (("isnone", p), None)
                 if ks == frozenset(["null"]):
                     r = True
                 elif "null" not in ks:
                     r = False
+                elif nkey in w.keys:
+                    r = w.keys[nkey]
                 else:
-                    return self._fork_any(w, p, v)
+                    # undetermined (Any / a union not yet split): both worlds, each remembering what it assumed
+                    def mkn(val):
+                        def app(x):
+                            x.keys[nkey] = val
+                            if val:
+                                x.alt[p] = NONE
+                        return app
+                    raise Fork([mkn(True), mkn(False)])
                 return r if isinstance(op, ast.Is) else not r
             # a name bound to a folded string (loop unrolling / helper inlining) counts as that constant
             if isinstance(left, ast.Name) and self.path_of(left, extra) is None:
@@ -804,7 +831,32 @@ class HookEval:
             raise AnalysisError(f"{self.rel}:{node.lineno}: unsupported {which}() form in {self.name}")
         p = self.path_of(g.iter, extra)
         if p is None:
-            raise AnalysisError(f"{self.rel}:{node.lineno}: {which}() over a non-path in {self.name}")
+            # a quantifier over a constant table (`any(object_.get(k) for k in ("id", "documentSelector"))`): unrolled
+            table = self.fold_value(g.iter)
+            if table is self._NOVALUE or not isinstance(table, (list, tuple, set, frozenset)) or len(table) > 64:
+                raise AnalysisError(f"{self.rel}:{node.lineno}: {which}() over a non-path in {self.name}")
+            elems = sorted(table, key=repr) if isinstance(table, (set, frozenset)) else list(table)
+            for elem in elems:
+                frame = {}
+                if isinstance(g.target, ast.Name):
+                    frame[g.target.id] = elem
+                elif isinstance(g.target, ast.Tuple) and all(isinstance(e, ast.Name) for e in g.target.elts) \
+                        and isinstance(elem, (tuple, list)) and len(elem) == len(g.target.elts):
+                    frame.update({e.id: x for e, x in zip(g.target.elts, elem)})
+                else:
+                    raise AnalysisError(f"{self.rel}:{node.lineno}: unsupported {which}() target in {self.name}")
+                self.valenv.append(frame)
+                try:
+                    r = self.truth(comp.elt, w, extra)
+                finally:
+                    self.valenv.pop()
+                if not isinstance(r, bool):
+                    return r
+                if which == "any" and r:
+                    return True
+                if which == "all" and not r:
+                    return False
+            return which == "all"
         v = self.value_at(w, p)
         if v[0] == "error":
             return v
@@ -944,11 +996,31 @@ class HookEval:
             if p is not None:
                 extra2[prm.arg] = p
                 continue
+            if isinstance(a, ast.Name) and self._is_tparam(a):
+                frame[prm.arg] = _TYPEPARAM      # the type the hook was called for, handed on to the helper
+                continue
             v = self.fold_value(a)
             if v is self._NOVALUE:
                 return None
             frame[prm.arg] = v
         return extra2, frame
+
+    def _is_tparam(self, node) -> bool:
+        if not isinstance(node, ast.Name):
+            return False
+        for frame in reversed(self.valenv):
+            if node.id in frame:
+                return frame[node.id] is _TYPEPARAM
+        return node.id == self.tparam
+
+    @staticmethod
+    def _body_of(fn):
+        """statement list of a helper (a lambda is `return <body>`)"""
+        if isinstance(fn, ast.Lambda):
+            r = ast.Return(value=fn.body)
+            ast.copy_location(r, fn.body)
+            return [r]
+        return fn.body
 
     def _call_bool(self, fn, args, w, extra):
         """A helper of the package used as a predicate: inlined."""
@@ -959,7 +1031,7 @@ class HookEval:
         self._inline_depth += 1
         self.valenv.append(frame)
         try:
-            return self._bool_block(fn.body, w, extra2, fn)
+            return self._bool_block(self._body_of(fn), w, extra2, fn)
         finally:
             self.valenv.pop()
             self._inline_depth -= 1
@@ -1005,6 +1077,7 @@ class HookEval:
         if isinstance(fn, list):     # synthetic decision list: [(key, cls_ty)], fallback
             raise AnalysisError("synthetic")
         self.locals = {}
+        self.localvals = {}
         r = self._exec_block(fn.body, w)
         if r is None:
             return Leaf("fallthrough", node=fn)
@@ -1042,6 +1115,13 @@ class HookEval:
                 if p is not None:
                     self.locals[st.targets[0].id] = p
                     continue
+                # a local bound to something that does not depend on the input (a key table, a type): folded
+                if not any(self.path_of(n_, extra) is not None for n_ in ast.walk(st.value)
+                           if isinstance(n_, (ast.Name, ast.Subscript, ast.Call))):
+                    v = self.fold_value(st.value)
+                    if v is not self._NOVALUE:
+                        self.localvals[st.targets[0].id] = v
+                        continue
             if isinstance(st, ast.Try):
                 raise AnalysisError(f"{self.rel}:{st.lineno}: try/except inside hook {self.name} "
                                     "(may swallow structuring errors; not modelled)")
@@ -1135,7 +1215,7 @@ class HookEval:
                 p = self.path_of(node.args[0], extra)
                 if p is None:
                     raise AnalysisError(f"{self.rel}:{node.lineno}: structure() of a non-path in {self.name}")
-                if dotted(node.args[1]) == self.tparam:
+                if self._is_tparam(node.args[1]):
                     return Leaf("structure_self", node=node, path=p)
                 return Leaf("structure", node=node, path=p, ty=self.target_type(node.args[1]))
             if d and d.endswith(".structure") and d != f"{self.conv}.structure":
@@ -1151,7 +1231,7 @@ class HookEval:
                         self._inline_depth += 1
                         self.valenv.append(frame)
                         try:
-                            r = self._exec_block(hf.body, w, extra2)
+                            r = self._exec_block(self._body_of(hf), w, extra2)
                         finally:
                             self.valenv.pop()
                             self._inline_depth -= 1
